@@ -106,7 +106,9 @@ func main() {
 		"and at least one generated point satisfies the query; (b) a black-box query is non-trivial when its broadcast answer on the multi-partition server is non-empty " +
 		"and its condition contains an equality on the shard-key tag (so the pruning code has something to extract). Keys are catalogue#/query# resp. query text.")
 	c.Assume("the harness evaluator gives the InfluxQL meaning of the generated conditions (tag =,!=,=~,!~; numeric/string field comparisons; AND/OR/parentheses; time bounds only AND-ed at top level); every generated point carries every field")
-	c.Assume("partition availability does not change between the writes and the queries of one catalogue")
+	c.Assume("partition availability does not change between the writes and the queries of one catalogue; rows routed to a shard of an offline partition are not acknowledged (the capture store refuses them) and are therefore not accepted points")
+	c.Assume("a series hint (full_series / specific_series) addresses exactly the series whose tag set the condition spells out")
+	c.Assume("black-box: a point counts as accepted when /write answered 204; comparisons start only after count(id) of every measurement shows all accepted points on both servers")
 	c.Assume("in-process: catalogue mutations the write path sends to ts-meta (CreateShardGroup, UpdateSchema, CreateMeasurement) are applied with the same meta.Apply* functions ts-meta uses; the sql side reads through the real metaclient.Client cache")
 
 	if c.ReplayIn != "" {
@@ -216,7 +218,7 @@ func replay(c *vf.Ctx) {
 	switch {
 	case f.Witness.Case != nil:
 		n := runCase(catReporter{c}, f.Witness.Case, "replay")
-		fmt.Printf("REPLAY property=C11 in-process case: read-side violations=%d total violations=%d\n", n, c.Violations())
+		fmt.Printf("REPLAY property=C11 in-process case: matching points found in unconsulted shards=%d, violations reported=%d\n", n, c.Violations())
 	case f.Witness.BB != nil:
 		replayBlackbox(c, f.Witness.BB)
 	default:
